@@ -123,7 +123,7 @@ Definition sc_values (o : outcome server_cookie) : list value :=
   end.
 
 Definition glue_C10 (k : string) (a o : list value) : option verdict :=
-  if is k "nts.req" then
+  if is k "nts.req" || is k "nts.ctrhalf" then
     match a with
     | [VL hs; VB b; VB key; VL tab] => glue_recv 0 hs b key [] tab o (fun _ => true)
     | _ => None end
@@ -315,7 +315,7 @@ Definition glue_C10 (k : string) (a o : list value) : option verdict :=
                                        VZ (match sc_decode (sc_encode c) with Ok _ => 1 | _ => 0 end)]
                             | _ => [VZ (code_of r); VZ 0; VB []; VB []; VB []; VZ 0] end) o (C10_tlv_ok ocode osame))
     | _, _ => None end
-  else if is k "srv.ip" || is k "srv.scion" then
+  else if is k "srv.ip" || is k "srv.scion" || is k "srv.ctrhalf" then
     (* the real IP / SCION listener: args honest packets, datagram (NTP/NTS payload), valid server
        keys [id key], AEAD answers; observed: replied (-1: the listener stopped answering), whether
        the reply verified at the client, whether every re-issued cookie opened to the session's keys *)
